@@ -270,6 +270,8 @@ def run(ctx, R, tier):
 
     # ---------------------------------------------------------------- R7
     R.rule("C16-R7", "serialising a value never writes to it: the registration marks (_pyroId, _pyroDaemon) of a registered object survive being sent", floor=8)
+    R.rule("C16-R8", "the registry is per daemon: created fresh in __init__", floor=1)
+    R.rule("C16-R9", "a proxy (also the one Daemon.proxyFor builds for a returned object) rejects an object as exposing nothing only when it has neither methods nor attributes", floor=1)
     n7 = 0
     sermod = [g for g in p.functions.values() if g.module.name == "Pyro5.serializers" or g.qualname == "Pyro5.server._pyro_obj_to_auto_proxy"]
     for g in sorted(sermod, key=lambda g: g.qualname):
@@ -295,4 +297,26 @@ def run(ctx, R, tier):
         R.check(bad is None, "C16-R7", "%s|read-only-on-its-argument" % g.qualname.split(".", 2)[2], "no attribute or item of the value being serialised is assigned or deleted", g.loc(),
                 ("`%s` at %s modifies the object that is being serialised: a registered object sent once (by a serializer without auto-proxy hook) loses its registration mark and "
                  "travels by value to every client from then on" % (unparse(bad, 60), g.loc(bad))) if bad is not None else "")
+
+    # ---------------------------------------------------------------- R8
+    from .common import fresh_per_instance
+    fresh_per_instance(ctx, R, "C16-R8", "Pyro5.server.Daemon", "objectsById", "all daemons of the process would share one registry: an id registered in one daemon is served by every other")
+
+    # ---------------------------------------------------------------- R9
+    pmeta = ctx.fn("Pyro5.client.Proxy.__processMetadata")
+    pcfg = ctx.cfg(pmeta)
+    raises = [n for n in pcfg.nodes if n.kind == "stmt" and isinstance(n.ast, ast.Raise)]
+    if not raises:
+        raise AnalysisError("Proxy.__processMetadata: the 'exposes nothing' refusal vanished")
+
+    def empty(field):
+        def pred(atom, pol):
+            return isinstance(atom, ast.Attribute) and atom.attr == field and pol is False
+        return pred
+    for i, n in enumerate(raises):
+        okm = pcfg.guarded(n, lambda e: edge_has_fact(e, empty("_pyroMethods")))
+        oka = pcfg.guarded(n, lambda e: edge_has_fact(e, empty("_pyroAttrs")))
+        R.check(okm and oka, "C16-R9", "__processMetadata|refusal#%d-needs-both-empty" % i, "raised only when the method set and the attribute set are both empty", pmeta.loc(n.ast),
+                "the refusal is reached although %s may be non-empty: an object that exposes only %s cannot be connected to, and returning it from a method (auto-proxy) fails" % (
+                    "_pyroAttrs" if okm else "_pyroMethods", "properties" if okm else "methods"))
 
